@@ -333,6 +333,7 @@ func runProperty(P *Prog, prop, tier string, seed int, verif, outDir string) *pr
 	}
 	dischargeAll(smokes, runCfg{dir: scratch + "/smoke", timeout: 2, seed: seed, order: []string{"z3-new"}, workers: (runtime.NumCPU() + 1) / 2})
 	var smokeFailed []string
+	os.RemoveAll(filepath.Join(outDir, "replays", "out", prop+"-vacuity"))
 	retAll, retBad := map[string]int{}, map[string]int{}
 	for _, o := range smokes {
 		isRet := strings.Contains(o.Name, "/smoke/return#")
@@ -345,7 +346,17 @@ func runProperty(P *Prog, prop, tier string, seed int, verif, outDir string) *pr
 				continue
 			}
 			smokeFailed = append(smokeFailed, o.Name)
-			res.lines = append(res.lines, fmt.Sprintf("govc: warning: vacuity check refuted at %s (contradictory assumptions)", o.Name))
+			// contradictory assumptions at the entry of a function or at a loop head: everything proved after that point
+			// is vacuous, so the property is not decided for this function
+			res.violations++
+			vdir := filepath.Join(outDir, "replays", "out", prop+"-vacuity")
+			os.MkdirAll(vdir, 0o755)
+			rp := filepath.Join(vdir, mangle(o.Name)+".json")
+			jb, _ := json.MarshalIndent(map[string]any{"property": prop, "obligation": o.Name, "kind": "vacuity",
+				"solver_output": truncateStr(o.Output, 2000), "failing_input": nil,
+				"note": "the assumptions in force at this point (preconditions, invariants, callee contracts) are contradictory: the solver refuted the reachability check"}, "", " ")
+			os.WriteFile(rp, jb, 0o644)
+			res.lines = append(res.lines, fmt.Sprintf("VIOLATION property=%s replay=%s obligation=%s no-failing-input-found", prop, rp, o.Name))
 		}
 	}
 	for f, n := range retAll {
